@@ -118,6 +118,10 @@ func Basket() Spec {
 		fix(Take(B, NCT, "1", false)),
 		fix(Take(B, NCT, "1500000", true)),
 		fix(Take(B, NCT, "2000000", false)),
+		fix(Take(B, NCT, "010", false)),    // numeral spellings the integer parser accepts
+		fix(Take(B, NCT, "0x10", false)),
+		fix(Take(B, NCT, "1_0", true)),
+		fix(Take(B, NCT, "+12", false)),
 		TakeAll(C, NCT, false),
 		TakeAll(C, RCT, true),
 		TakeAll(D, NCT, true),
@@ -355,4 +359,48 @@ func BasketLarge() Spec {
 	}
 	return Spec{Name: "basket-large", Seeds: []explore.Seed{PreparedSeed("prepared")},
 		Events: good, DepthQuick: 6, DepthThor: 8, MinStates: 100}
+}
+
+// Mixed: a cross-module alphabet (issuance, send, retire, basket, market,
+// bridge, expiry, fee params together) at a lower depth, for interactions
+// between sub-modules that the per-module alphabets cannot reach.
+func Mixed() Spec {
+	e10 := chain.T0.Add(10 * time.Second)
+	ur := func(n int64) sdk.Coin { return coin("uregen", n) }
+	evs := []E{
+		MintN(A, B1, Iss(B, "1", "0.5"), Iss(C, "0.25", "0")),
+		fix(SendN(B, C, SC(B1, "1", "0"), SC(B2, "0.5", "0.25"))),
+		SendAll(B, D, B1, "0", false),
+		fix(Retire(C, B1, "1")),
+		fix(Cancel(B, B3, "1")),
+		fix(Put(B, NCT, BC(B1, "1.5"), BC(B2, "1"))),
+		fix(Put(C, RCT, BC(B1, "1"))),
+		fix(Take(B, NCT, "2500000", false)),
+		TakeAll(B, NCT, true),
+		TakeAll(C, RCT, true),
+		fix(BankSend("BankSend(B->D,1000000NCT)", B, D, coin(NCT, 1000000))),
+		TakeAll(D, NCT, false),
+		fix(SellN(B, "expiring+non-expiring", SO(B1, "0.5", ur(4), true, &e10), SO(B2, "0.25", ur(4), false, nil))),
+		fix(Sell(D, B1, "0.5", ur(2), true, nil)), // succeeds only after D received credits
+		UpdateTwice(B, 0, "0.75", "0.5"),
+		UpdateOrder(B, B, 1, "", pcoin("uregen", 5), false, nil),
+		CancelOrder(B, B, 0),
+		CancelOrder(C, C, 0),
+		Buy(D, "B0-half", BuySpec{Seller: B, K: 0, Qty: "0.5", DAR: true, MaxFee: I64(100)}),
+		Buy(C, "B1-all-retire", BuySpec{Seller: B, K: 1, MaxFee: I64(100)}),
+		Buy(D, "C0+B0", BuySpec{Seller: C, K: 0, Qty: "0.5", DAR: true, MaxFee: I64(100)}, BuySpec{Seller: B, K: 0, Qty: "0.25", DAR: true, MaxFee: I64(100)}),
+		Buy(B, "D0-all", BuySpec{Seller: D, K: 0, DAR: true, MaxFee: I64(100)}),
+		fix(Bridge(B, "polygon", Cr(B3, "1"))),
+		fix(BridgeReceive(A, "C01", "VCS-1", C, "1.5", date(2021, 1, 1), date(2022, 1, 1), &basetypes.OriginTx{Id: TxHash(2), Source: "polygon", Contract: Contract1})),
+		fix(Put(C, NCT, BC(B3, "1"))), // after the bridge receipt C holds b3
+		fix(Seal(A, B1)),
+		fix(GovFeeParams(G, "0.1", "0.05")),
+		fix(Next(11 * time.Second)),
+		fix(Next(5 * time.Second)),
+	}
+	exp := map[string]bool{}
+	for _, e := range evs {
+		exp[e.Name] = true
+	}
+	return Spec{Name: "mixed", Seeds: []explore.Seed{PreparedSeed("prepared")}, Events: evs, DepthQuick: 4, DepthThor: 5, ExpectFail: exp, MinStates: 1000}
 }
